@@ -539,8 +539,8 @@ def key_lines(lines):
 
 def op07_multiline_key(lines, docs, rng):
     """[154]/[155] implicit keys are c-double-quoted(n,block-key) / (flow-key) = [111] nb-double-one-line (resp. [122]
-    nb-single-one-line): one line only.  In a flow SEQUENCE the single pair [150] ns-flow-pair-entry uses the same
-    one-line implicit key productions."""
+    nb-single-one-line, [133] ns-plain-one-line): one line only.  In a flow SEQUENCE the single pair [150] ns-flow-pair-entry
+    uses the same one-line implicit key productions (spec example 7.22 "Invalid Implicit Keys")."""
     out = []
     ks = key_lines(lines)
     if ks:
@@ -560,11 +560,12 @@ def op07_multiline_key(lines, docs, rng):
         p = rng.choice(po)
         before = strip(T[:p]).rstrip(" ")
         sep = " " if before.endswith("[") or before.endswith(",") else ", "
-        q = rng.choice("'\"")
+        q = rng.choice(["'", "\"", ""])
         # continuation far to the right: deeper than any enclosing block
         line_start = T.rfind("\n", 0, p) + 1
         col = len(strip(T[line_start:p]))
-        out.append(("quoted-flow-pair-key-on-two-lines", strip(T[:p] + sep + q + "ab\n" + " " * (col + 2) + "cd" + q + ": v " + T[p + 1:])))
+        out.append((("quoted" if q else "plain") + "-flow-pair-key-on-two-lines",
+                    strip(T[:p] + sep + q + "ab\n" + " " * (col + 2) + "cd" + q + ": v " + T[p + 1:])))
     return out
 
 
@@ -826,7 +827,7 @@ OPS = [
 # ------------------------------------------------------------------------------------------------
 _STRAY = re.compile(r"(^|[\[,\s])\?[ ]*\][ ]*\]")
 _LONGKEY = re.compile(r"(k{1021,}['\"]?): v \]")
-_MLKEY = re.compile(r"(['\"])ab\n +cd\1: v \]")
+_MLKEY = re.compile(r"(['\"]?)ab\n +cd\1: v \]")
 
 
 def flow_mapping_seen_before_multiline_key(text):
@@ -848,7 +849,7 @@ PREDICATES = {
         and var == "continuation-at-block-indentation/non-plain-start/plain-scalar-before",
     # a quoted single-pair key spanning two lines in a flow sequence, after any "{" earlier in the stream
     "multiline-flow-pair-key-after-flow-mapping":
-        lambda cls, var, text: cls == "07-multiline-key" and var == "quoted-flow-pair-key-on-two-lines"
+        lambda cls, var, text: cls == "07-multiline-key" and var.endswith("-flow-pair-key-on-two-lines")
         and flow_mapping_seen_before_multiline_key(text),
 }
 
@@ -876,7 +877,7 @@ def check_C06(tier, seed):
     res = Result("C06", tier, seed)
     proof = prepare("C06", res)
     rng = gen.rng_for(seed, "C06")
-    n_bases = 700 if tier == "quick" else 20000
+    n_bases = 2500 if tier == "quick" else 30000
     sg = StreamGen(rng)
     bases = []
     seen = set()
